@@ -187,8 +187,39 @@ def sep(rng, allow_comment=True):
             out += " % " + rng.choice(["a comment", "1 2 3", "\"", "[", "..."]) + "\n"
     return out
 
+def adjacent_ranges(rng):
+    """a range directly followed by a range of the same type: the second takes the first one's
+    last element for the "a" of "a b ... c" (doc/Guide.adoc), so its step is b - last"""
+    k = rng.choice("ihc")
+    suf = "h" if k == "h" else ""
+    def lit(v):
+        return "'%c'" % v if k == "c" else "%d%s" % (v, suf)
+    base = rng.randint(60, 90) if k == "c" else rng.randint(-20, 20)
+    n1 = rng.randint(2, 6)
+    d1 = rng.choice([1, -1]) if rng.random() < 0.7 else rng.choice([2, 3, -2])
+    if k == "c":
+        d1 = abs(d1)
+    last1 = base + d1 * (n1 - 1)
+    if abs(d1) == 1:
+        t1 = "%s ... %s" % (lit(base), lit(last1))
+        s1 = ["R:%d:1" % n1, "%s:%d" % (k, d1), "%s:%d" % (k, base)]
+    else:
+        n1 = max(n1, 3); last1 = base + d1 * (n1 - 1)
+        t1 = "%s %s ... %s" % (lit(base), lit(base + d1), lit(last1))
+        s1 = ["%s:%d" % (k, base), "R:%d:1" % (n1 - 1), "%s:%d" % (k, d1), "%s:%d" % (k, base + d1)]
+    d2 = rng.choice([1, 2, 4, -3]) if k != "c" else rng.choice([1, 2, 3])
+    n2 = rng.randint(2, 5)
+    b2 = last1 + d2
+    c2 = b2 + d2 * (n2 - 1)
+    t2 = "%s ... %s" % (lit(b2), lit(c2))
+    s2 = ["R:%d:1" % n2, "%s:%d" % (k, d2), "%s:%d" % (k, b2)]
+    return t1 + sep(rng) + t2, s1 + s2
+
 def structured(rng):
     """ranges, repetitions, arrays: (text, slots)"""
+    q = rng.random()
+    if q < 0.15:
+        return adjacent_ranges(rng)
     q = rng.random()
     if q < 0.3:
         n = rng.randint(1, 9)
@@ -233,8 +264,9 @@ def gen(rng, tier, dist):
     for _ in range(n):
         nw = rng.choice([1, 1, 2, 2, 3, 4, 6, 10])
         text, slots, kind = "", [], "sc"
+        lead = rng.random()
         for j in range(nw):
-            if rng.random() < 0.15:
+            if rng.random() < 0.15 or (lead < 0.12 and j == min(nw - 1, int(lead * 33))):
                 t, sl = structured(rng); bump("structured")
                 # "b ... c" takes a preceding value of b's type for the "a" of "a b ... c"
                 # (doc/Guide.adoc): keep such a neighbour away unless it is meant
